@@ -1258,7 +1258,7 @@ fn gen_case(rng: &mut Rng, imp: &str) -> Vec<String> {
     // implementations, so that the same seed still gives the same script to both
     let path = rng.below(PATHS);
     let event = !is_map && rng.chance(1, 4);
-    let big = rng.chance(1, 24);
+    let big = rng.chance(1, 40);
     if imp == "client" {
         ops.retain(|o| o != "reconnect" && o != "stop");
     } else {
